@@ -1206,10 +1206,13 @@ class SyncState:  # pylint: disable=too-many-instance-attributes, too-many-publi
 
         changes = sorted(change_set, key=sort_key)
 
-        # change stamps are forced to increase (see mark_changed), so they can be slightly ahead of a
-        # coarse clock: with ageing zero every pending change must still be eligible at once
-        now = max(time.time(), self._last_changed_time)
+        now = time.time()
         earlier_than = now - age
+        if age <= 0:
+            # change stamps are forced to increase (see mark_changed), so they can be slightly ahead of a
+            # coarse clock: with ageing zero every pending change must still be eligible at once
+            # (with a positive ageing interval the interval stays measured on the clock itself)
+            earlier_than = max(earlier_than, self._last_changed_time)
         for e in changes:
             if (e[LOCAL].changed and (e[LOCAL].changed <= earlier_than)) \
                     or (e[REMOTE].changed and (e[REMOTE].changed <= earlier_than)) \
